@@ -9,6 +9,14 @@ HERE = os.path.dirname(os.path.dirname(os.path.abspath(__file__)))
 BASELINE = "cd /repo && /venv/bin/python -m pytest -ra -q -p no:cacheprovider --timeout=900 --continue-on-collection-errors"
 
 CHECKS = {
+    "C01": dict(
+        level="exploration",
+        technique="deviation-bounded enumeration (k<=1 quick, k<=2 thorough) of wavefunction objects x 5 targets x allow_changes on the real dump_one/load_one, independent GTO evaluator as oracle; corpus sweep",
+        text="Every wavefunction object with <=k deviations over centers, shell set, contraction scheme, shell order, conventions, orbital kind, extras is written to FCHK, Molden, Molekel, WFN, WFX "
+        "with and without allow_changes; a written file must reload to the same nuclei, orbital values at 14 probe points, occupations, energies, spin and densities; every corpus wavefunction file is converted to every target.",
+        note="orbital values by ref/gto.py on the source (rounded to the printed digits of exponents/contractions) and on the reloaded object; tolerances = 0.6 unit in the last printed place, linearly propagated",
+        design="DESIGN.md §2 C01",
+    ),
     "C02": dict(
         level="exploration",
         technique="deviation-bounded enumeration (k<=1 quick, k<=2 thorough) per format on the real dump_one/load_one, digits-aware attribute comparison, deterministic minimisation",
